@@ -2487,7 +2487,6 @@ class Postprocessor:
             FootnoteHandler,
             ProgramOptionHandler,
             TabsSelectorHandler,
-            ContentsHandler,
             InstruqtHandler,
             GuidesHandler,
             OpenAPIHandler,
@@ -2501,7 +2500,9 @@ class Postprocessor:
             ComposableTutorialHandler,
         ],
         [TargetHandler, IAHandler, NamedReferenceHandlerPass1],
-        [RefsHandler, NamedReferenceHandlerPass2],
+        # The on-page table of contents copies the headings: after the references in them
+        # have got their destinations and titles
+        [RefsHandler, NamedReferenceHandlerPass2, ContentsHandler],
     ]
 
     def __init__(self, project_config: ProjectConfig, targets: TargetDatabase) -> None:
